@@ -777,7 +777,7 @@ def cpRev (c : Cli) (e : Option FdEnv) : Nat :=
 
 def cpDead (w : W) (c : Cli) : W × Option Cli := ({ w with sys := w.sys ++ [.close c.fd] }, none)
 
-/-- `_handle_read` -/
+/-- `_handle_read` once the capacity half (`clipC`, `clipE`) is done: what happens with the bytes read -/
 def cpRead (w : W) (c : Cli) (e : Option FdEnv) : W × Cli :=
   match e with
   | some e =>
@@ -787,6 +787,16 @@ def cpRead (w : W) (c : Cli) (e : Option FdEnv) : W × Cli :=
     else ({ w with sys := w.sys ++ [.read c.fd e.data.length] }, { c with fromBuf := c.fromBuf ++ e.data })
   | none => (w, c)
 
+/-! the capacity half of `_handle_read` touches nothing but the input buffer and its size -/
+@[simp] theorem clipC_id (c : Cli) (e : Option FdEnv) : (clipC c e).id = c.id := by unfold clipC clipCli; split <;> rfl
+@[simp] theorem clipC_fd (c : Cli) (e : Option FdEnv) : (clipC c e).fd = c.fd := by unfold clipC clipCli; split <;> rfl
+@[simp] theorem clipC_quit (c : Cli) (e : Option FdEnv) : (clipC c e).quit = c.quit := by unfold clipC clipCli; split <;> rfl
+@[simp] theorem clipC_telemetry (c : Cli) (e : Option FdEnv) : (clipC c e).telemetry = c.telemetry := by unfold clipC clipCli; split <;> rfl
+@[simp] theorem clipC_exprange (c : Cli) (e : Option FdEnv) : (clipC c e).exprange = c.exprange := by unfold clipC clipCli; split <;> rfl
+@[simp] theorem clipC_cmd (c : Cli) (e : Option FdEnv) : (clipC c e).cmd = c.cmd := by unfold clipC clipCli; split <;> rfl
+@[simp] theorem clipC_toBuf (c : Cli) (e : Option FdEnv) : (clipC c e).toBuf = c.toBuf := by unfold clipC clipCli; split <;> rfl
+@[simp] theorem clipC_blocking (c : Cli) (e : Option FdEnv) : (clipC c e).blocking = c.blocking := by unfold clipC clipCli; split <;> rfl
+
 def cpTail (r : W × Cli) : W × Option Cli :=
   if r.1.exited then (r.1, some r.2) else
   if r.2.quit && r.2.cmd.isNone then cpDead r.1 r.2 else (r.1, some r.2)
@@ -794,11 +804,12 @@ def cpTail (r : W × Cli) : W × Option Cli :=
 def clientPass' (w : W) (c : Cli) (e : Option FdEnv) : W × Option Cli :=
   let rev := cpRev c e
   if rev &&& 8 != 0 || rev &&& 16 != 0 then cpDead w c else
-  let r1 := if rev &&& 1 != 0 || rev &&& 4 != 0 then cpRead w c e else (w, c)
+  let r1 := if rev &&& 1 != 0 || rev &&& 4 != 0 then cpRead w (clipC c e) (clipE c e) else (w, c)
   let r2 := if rev &&& 2 != 0 then handleWrite r1.1 r1.2 else r1
   cpTail (handleInput r2.1 r2.2)
 
-theorem clientPass_eq (w : W) (c : Cli) (e : Option FdEnv) : clientPass w c e = clientPass' w c e := rfl
+theorem clientPass_eq (w : W) (c : Cli) (e : Option FdEnv) : clientPass w c e = clientPass' w c e := by
+  cases e <;> rfl
 
 theorem cpRead_exited (w : W) (c : Cli) (e : Option FdEnv) : (cpRead w c e).1.exited = w.exited := by
   unfold cpRead
@@ -816,9 +827,9 @@ theorem clientPass_exited (hs : NoSortAbort) (w : W) (c : Cli) (e : Option FdEnv
   split
   · rfl
   · rw [cpTail_exited, handleInput_exited hs]
-    have h1 : (if (cpRev c e &&& 1 != 0 || cpRev c e &&& 4 != 0) = true then cpRead w c e else (w, c)).1.exited = w.exited := by
+    have h1 : (if (cpRev c e &&& 1 != 0 || cpRev c e &&& 4 != 0) = true then cpRead w (clipC c e) (clipE c e) else (w, c)).1.exited = w.exited := by
       split
-      · exact cpRead_exited w c e
+      · exact cpRead_exited w _ _
       · rfl
     split
     · rw [handleWrite_exited, h1]
@@ -969,6 +980,9 @@ theorem parseLine_blind (line : Bytes) : FromBlind fun w c => parseLine w c line
   show parseLine w (setFrom c x) line = ((parseLine w c line).1, setFrom (parseLine w c line).2 x)
   simp only [parseLine_eq]
   unfold parseLine'
+  by_cases hl : TooLong line
+  · rw [if_pos hl, if_pos hl]; rfl
+  rw [if_neg hl, if_neg hl]
   by_cases h : c.cmd.isSome = true
   · have h' : (setFrom c x).cmd.isSome = true := h
     rw [if_pos h, if_pos h']; rfl
@@ -1208,7 +1222,9 @@ theorem nodes_exit (w : W) (c : Cli) (hidle : c.cmd = none) (h : sortHL w.cfg.no
   have hs : reqStr (bstr "nodes\n") = kwNodes := by decide +kernel
   have h1 : casePrefix kwHelp kwNodes = false := by decide
   have h2 : casePrefix kwNodes kwNodes = true := by decide
+  have hl : ¬ TooLong (bstr "nodes\n") := by unfold TooLong; rw [hs]; decide
   rw [parseLine_eq]; unfold parseLine'
+  rw [if_neg hl]
   simp only [hidle, Option.isSome_none, Bool.false_eq_true, if_false, hs]
   unfold plIdle
   simp only [h1, h2, Bool.false_eq_true, if_false, if_true]
@@ -1304,10 +1320,10 @@ theorem clientPass_stream (w : W) (c : Cli) (e : Option FdEnv) (c' : Cli) (h : (
   · simp [cpDead] at h
   · rename_i hrev
     rw [if_neg hrev]
-    generalize hr1 : (if (cpRev c e &&& 1 != 0 || cpRev c e &&& 4 != 0) = true then cpRead w c e else (w, c)) = r1 at h ⊢
+    generalize hr1 : (if (cpRev c e &&& 1 != 0 || cpRev c e &&& 4 != 0) = true then cpRead w (clipC c e) (clipE c e) else (w, c)) = r1 at h ⊢
     have h1 : outOf r1.1 r1.2 = outOf w c := by
       subst hr1; split
-      · exact (cpRead_out w c e).1
+      · rw [(cpRead_out w _ _).1]; simp [outOf]
       · rfl
     generalize hr2 : (if (cpRev c e &&& 2 != 0) = true then handleWrite r1.1 r1.2 else r1) = r2 at h ⊢
     have h2 : outOf r2.1 r2.2 = outOf w c := by
